@@ -125,6 +125,12 @@ macro_rules! prim_type {
                         c.ck("const_cmp!(Option<scalar>)", oa.cmp(&ob), const_cmp!(oa, ob));
                         c.ck("const_eq_for!(option; scalar)", oa == ob, const_eq_for!(option; oa, ob));
                         c.ck("const_cmp_for!(option; scalar)", oa.cmp(&ob), const_cmp_for!(option; oa, ob));
+                        c.ck("const_eq_for!(option; |l, r|)", oa == ob, const_eq_for!(option; oa, ob, |l, r| *l == *r));
+                        c.ck("const_cmp_for!(option; |l, r|)", oa.cmp(&ob), const_cmp_for!(option; oa, ob, |l, r| l.cmp(r)));
+                        c.ck("const_eq_for!(option; |x| key)", oa == ob, const_eq_for!(option; oa, ob, |v| *v));
+                        c.ck("const_cmp_for!(option; |x| key)", oa.cmp(&ob), const_cmp_for!(option; oa, ob, |v| *v));
+                        c.ck("const_eq_for!(option; path)", oa == ob, const_eq_for!(option; oa, ob, by_ref_eq));
+                        c.ck("const_cmp_for!(option; path)", oa.cmp(&ob), const_cmp_for!(option; oa, ob, by_ref_cmp));
                     }
                 }}
             }
@@ -302,11 +308,15 @@ macro_rules! ranges {
                 $c.ck(stringify!($eqr), x == y, rc::$eqr(&x, &y));
                 $c.ck("const_eq!(Range)", x == y, const_eq!(x, y));
                 $c.ck("const_eq_for!(range; ..)", x == y, const_eq_for!(range; x, y));
+                $c.ck("const_eq_for!(range; |l, r|)", x == y, const_eq_for!(range; x, y, |l, r| *l == *r));
+                $c.ck("const_eq_for!(range; |x| key)", x == y, const_eq_for!(range; x, y, |v| *v));
                 let (x, y) = (a0..=a1, b0..=b1);
                 $c.desc = format!("{x:?}, {y:?}");
                 $c.ck(stringify!($eqri), x == y, rc::$eqri(&x, &y));
                 $c.ck("const_eq!(RangeInclusive)", x == y, const_eq!(x, y));
                 $c.ck("const_eq_for!(range_inclusive; ..)", x == y, const_eq_for!(range_inclusive; x, y));
+                $c.ck("const_eq_for!(range_inclusive; |l, r|)", x == y, const_eq_for!(range_inclusive; x, y, |l, r| **l == **r));
+                $c.ck("const_eq_for!(range_inclusive; |x| key)", x == y, const_eq_for!(range_inclusive; x, y, |v| **v));
             }}
         }
     )*};
